@@ -1,24 +1,14 @@
-"""C03 — stopping-type asynchronous Hyperband decides by the documented quantile rule."""
-import itertools
-
+"""C04 — promotion-type Hyperband (ASHA, PASHA, cost-aware, RUSH k=0) promotes only eligible trials."""
 from .. import env
 from ..core import Result, pmap, Violation
 from ..schedx import World, explore, Oracle
 from ..world import table_from_perms, all_perms, rotate
 from ..refs.rungs import rung_levels
-from ..refs.stopping import StoppingRef
+from ..refs.promotion import PromotionRef
+from .c03 import RUNG_SYSTEMS
 
 LEVEL = "model_checking"
-PROP = "C03"
-
-RUNG_SYSTEMS = {
-    "g1rf2m4": dict(grace=1, rf=2, max_t=4),
-    "g1rf3m9": dict(grace=1, rf=3, max_t=9),
-    "g2rf2m8": dict(grace=2, rf=2, max_t=8),
-    "g1inc2m7": dict(grace=1, inc=2, max_t=7),
-    "lv125m6": dict(levels=[1, 2, 5], max_t=6),
-    "g1rf2m5": dict(grace=1, rf=2, max_t=5),
-}
+PROP = "C04"
 
 
 def make_scheduler(cfg):
@@ -40,24 +30,34 @@ def make_scheduler(cfg):
         kw.update(grace_period=rs["grace"], reduction_factor=rs["rf"])
     else:
         kw.update(grace_period=rs["grace"], reduction_factor=None, rung_increment=rs["inc"])
-    if cfg["type"] == "rush_stopping":
-        kw["rung_system_kwargs"] = {"num_threshold_candidates": cfg["rush_k"]}
-        if cfg["rush_k"] > 0:
-            kw["points_to_evaluate"] = [{"a": 0.1 + 0.2 * i} for i in range(cfg["rush_k"])]
+    if cfg["type"] == "cost_promotion":
+        kw["cost_attr"] = "cost"
+    if cfg["type"] == "rush_promotion":
+        kw["rung_system_kwargs"] = {"num_threshold_candidates": 0}
     s = HyperbandScheduler(space, **kw)
     s.set_time_keeper(env.ConstTimeKeeper())
     return s
 
 
-class RungInvariant(Oracle):
-    """Implementation rungs == reference rungs; every trial at most once per rung."""
+COSTS = [1.0, 2.3, 0.7, 4.1, 1.9, 3.2]
+
+
+def cost_table(T, R, variant):
+    """cumulative cost to reach level r; variant rotates which trial is expensive"""
+    tab = []
+    for t in range(T):
+        per = COSTS[(t + variant) % len(COSTS)]
+        tab.append([per * (r + 1) * (1.0 + 0.07 * t) for r in range(R)])
+    return tab
+
+
+class PromoInvariant(Oracle):
+    """No trial is promoted twice from one rung; impl rung contents == reference."""
 
     def __init__(self, ref):
         self.ref = ref
 
     def after(self, world, ev, obs):
-        if obs[0] != "report":
-            return []
         try:
             systems = world.s.terminator._rung_systems
             impl = []
@@ -66,15 +66,15 @@ class RungInvariant(Oracle):
                 for rung in rs_._rungs:
                     ids = [int(e.trial_id) for e in rung.data]
                     if len(ids) != len(set(ids)):
-                        return [("stopping:rung-duplicate", f"trial recorded twice in rung {rung.level}: {ids}")]
+                        return [("promotion:rung-duplicate", f"trial recorded twice in rung {rung.level}: {ids}")]
                     if ids:
-                        d[rung.level] = sorted((int(e.trial_id), float(e.metric_val)) for e in rung.data)
+                        d[rung.level] = sorted((int(e.trial_id), float(e.metric_val), bool(e.was_promoted)) for e in rung.data)
                 impl.append(d)
         except AttributeError:
             return []
-        ref = [{lv: sorted(lst) for lv, lst in d.items() if lst} for d in self.ref.rungs]
+        ref = [{lv: sorted((e[0], float(e[1]), bool(e[3])) for e in lst) for lv, lst in d.items() if lst} for d in self.ref.rungs]
         if impl != ref:
-            return [("stopping:rung-contents", f"rung contents differ: impl {impl} reference {ref}")]
+            return [("promotion:rung-contents", f"rung contents differ: impl {impl} reference {ref}")]
         return []
 
 
@@ -87,12 +87,15 @@ def build_world(cfg):
     sign = 1.0 if cfg["mode"] == "min" else -1.0
     perms = {int(k): tuple(v) for k, v in cfg["perms"].items()}
     table = table_from_perms(cfg["T"], max_t, perms, sign)
+    mra = "epochs" if cfg.get("use_mra") else None
     spec = dict(W=cfg["W"], T=cfg["T"], R=max_t, table=table, brackets=nb if nb > 1 else 0,
-                max_resource_attr="epochs" if cfg.get("use_mra") else None,
-                fail_budget=cfg.get("F", 0))
-    ref = StoppingRef(levels, max_t, cfg["mode"], nb, cfg["per_bracket"],
-                      rush_k=cfg.get("rush_k") if cfg["type"] == "rush_stopping" else None)
-    w = World(s, spec, [ref, RungInvariant(ref)])
+                max_resource_attr=mra, scratch=cfg.get("scratch", False), fail_budget=cfg.get("F", 0))
+    if cfg["type"] == "cost_promotion":
+        spec["cost"] = cost_table(cfg["T"], max_t, cfg.get("cost_variant", 0))
+    kind = {"promotion": "promotion", "rush_promotion": "promotion", "pasha": "pasha",
+            "cost_promotion": "cost_promotion"}[cfg["type"]]
+    ref = PromotionRef(levels, max_t, cfg["mode"], nb, cfg["per_bracket"], kind=kind, mra=mra)
+    w = World(s, spec, [ref, PromoInvariant(ref)])
     if list(s.rung_levels) != levels or s.max_t != max_t:
         w.dead = ("EXC", "RungLevels", "reference", f"impl {s.rung_levels}/{s.max_t} ref {levels}/{max_t}")
     return w
@@ -109,9 +112,6 @@ def label(cfg):
 def task(cfg):
     cov, viols = explore(lambda: build_world(cfg), PROP, label(cfg), max_depth=cfg.get("D"),
                          max_states=cfg.get("max_states"), ctx=ctx_of(cfg))
-    w = build_world(cfg)
-    if w.dead:
-        viols.append(Violation(PROP, "stopping:rung-levels", w.dead[3], {"cfg": label(cfg)}))
     return cov, viols
 
 
@@ -119,36 +119,33 @@ def configs(tier, seed):
     out = []
     if tier == "quick":
         systems = ["g1rf2m4", "lv125m6"]
-        T, W = 4, 2
     else:
-        systems = list(RUNG_SYSTEMS)
-        T, W = 4, 3
+        systems = ["g1rf2m4", "lv125m6", "g1rf3m9", "g2rf2m8", "g1inc2m7", "g1rf2m5"]
     for rs_name in systems:
         rs = RUNG_SYSTEMS[rs_name]
         levels = rung_levels(**rs)
         for mode in ("min", "max"):
-            for brackets, per_bracket in ((1, False), (2, False), (2, True), (3, False)):
-                if tier == "quick" and brackets == 3:
-                    continue
-                types = [("stopping", None)]
-                if brackets == 1:
-                    types += [("rush_stopping", 0), ("rush_stopping", 2)]
-                for typ, k in types:
-                    p1 = rotate(all_perms(T), seed * 7 + len(out))
-                    n1 = 3 if tier == "quick" else 8
-                    if typ != "stopping" or brackets > 1:
-                        n1 = 2 if tier == "quick" else 4
+            for brackets, per_bracket in ((1, False), (2, False), (2, True)):
+                for typ in ("promotion", "pasha", "cost_promotion", "rush_promotion"):
+                    if typ == "rush_promotion" and (brackets > 1 or mode == "max"):
+                        continue
+                    if tier == "quick" and brackets > 1 and typ == "cost_promotion":
+                        continue
+                    T = 4 if brackets == 1 else 3
+                    W = 2
+                    if tier == "thorough" and brackets == 1:
+                        W = 3
+                    p1 = rotate(all_perms(T), seed * 5 + len(out))
+                    n1 = 2 if tier == "quick" else (6 if brackets == 1 else 3)
                     for i, perm1 in enumerate(p1[:n1]):
                         perm2 = tuple(reversed(range(T))) if i % 2 else tuple(range(T))
                         perms = {str(levels[0]): perm1}
                         if len(levels) > 1:
                             perms[str(levels[1])] = perm2
                         cfg = dict(rs=rs_name, mode=mode, brackets=brackets, per_bracket=per_bracket, type=typ,
-                                   rush_k=k, T=T, W=W, perms=perms, seed=seed, use_mra=(i % 2 == 1))
-                        if tier == "quick":
-                            cfg["max_states"] = 4000
-                        else:
-                            cfg["max_states"] = 60000
+                                   T=T, W=W, perms=perms, seed=seed, use_mra=(i % 2 == 0),
+                                   scratch=(i % 2 == 1), cost_variant=i)
+                        cfg["max_states"] = 3000 if tier == "quick" else 40000
                         out.append(cfg)
     return out
 
@@ -160,20 +157,20 @@ def run(tier, seed):
         res.cov.merge(cov)
         res.violations.extend(viols)
     res.rule = ("BFS over event histories {suggest(bracket), report(t), complete(t)} of the real HyperbandScheduler "
-                "(type stopping / rush_stopping) with digest dedup; per configuration = rung system x mode x brackets x "
-                "shared/per-bracket x metric-rank permutation; oracle = reference quantile rule stepped in lock-step + "
-                "rung-content invariant. distinct_nontrivial = distinct implementation states.")
+                "(promotion / pasha / cost_promotion / rush_promotion with 0 candidates) with digest dedup; configuration = "
+                "rung system x mode x brackets x shared/per-bracket x rank permutation x max_resource_attr x "
+                "restart-from-scratch; oracle = reference promotion rule (top-down scan, quantile or cumulative-cost "
+                "eligibility, best unpromoted first, exact next milestone) + rung-content/was_promoted invariant + PASHA cap "
+                "monotonicity. distinct_nontrivial = distinct implementation states.")
     res.bounds = {"configs": len(cfgs), "tier": tier}
     res.assumptions = list(env.ASSUMPTIONS) + [
         "bracket sampling owned via scheduler.bracket_distribution (one-hot chosen by explorer)",
-        "scheduler clock replaced by a constant TimeKeeper via set_time_keeper()",
-        "near ties (|v-cut|<=1e-9 rel) accept both decisions"]
-    res.cov.extra["near_tie_rule"] = "accepted both"
+        "PASHA cap is read from the implementation (rung_system.current_max_t) and only checked for monotonicity/membership",
+        "near ties accept both outcomes"]
     return res
 
 
 def replay(data):
-    from ..schedx import replay as rp
     cfg = data["cfg"]
     hist = [tuple(e) for e in data["history"]]
     w = build_world(cfg)
